@@ -91,6 +91,11 @@ pub struct Env {
     /// read past a slice sees plausible needle/haystack bytes)
     #[serde(default)]
     pub poison: u8,
+    /// 0: simulated threads are only preempted at the dispatch seams and
+    /// hand-offs; n > 0: also inside search loops, on average every n
+    /// step-clock ticks (tick seams)
+    #[serde(default)]
+    pub tick_preempt: u8,
 }
 
 #[derive(Serialize, Deserialize, Clone, Copy, Debug, PartialEq, Eq, Hash)]
